@@ -14,6 +14,7 @@ import numpy as np
 
 import common
 from common import zlist
+from props import siftcore
 
 IMPORTS = 'From EmdV Require Import lib.NpLite model.Extrema.'
 ALPHABET = [-1, 0, 1]
@@ -173,9 +174,10 @@ def signals(ctx, n):
     return out
 
 
-def oracle_envelope(x, mode, method, pad, parabolic):
+def oracle_envelope(x, mode, method, pad, parabolic, dtype=None):
     from scipy import interpolate as interp
     from emd import sift
+    x, _ = siftcore.as_dtype(x, dtype)       # integer counts / single precision handed to the implementation as they are
     N = len(x)
     opts = {'pad_width': pad, 'parabolic_extrema': parabolic}
     try:
@@ -287,16 +289,19 @@ def run(ctx):
     # (4) envelopes on real signals
     nsig = 18 if ctx.quick() else 400
     for si, x in enumerate(signals(ctx, nsig)):
+        dt = [None, None, 'int64', None, 'float32', None, None, 'int16'][si % 8]
+        if dt:
+            ctx.hist['dtype-' + dt] += 1
         for mode in ('upper', 'lower', 'combined'):
             for method in ('splrep', 'pchip', 'mono_pchip'):
                 pad = 1 + (si + len(mode) + len(method)) % 4
                 for parabolic in (False, True):
-                    fails, nt = oracle_envelope(x, mode, method, pad, parabolic)
+                    fails, nt = oracle_envelope(x, mode, method, pad, parabolic, dtype=dt)
                     ctx.count(('env', si, mode, method, parabolic), nt, 'envelope-%s' % ('parabolic' if parabolic else 'plain'))
                     ctx.tol_cmp += 1
                     for site, detail in fails[:1]:
                         ctx.problem('impl-violation', site, detail,
-                                    input=dict(signal=x.tolist(), mode=mode, interp_method=method, pad_width=pad, parabolic_extrema=parabolic),
+                                    input=dict(signal=x.tolist(), mode=mode, interp_method=method, pad_width=pad, parabolic_extrema=parabolic, dtype=dt),
                                     tags=dict(parabolic=parabolic))
     if bad and not any(p['kind'] == 'impl-violation' for p in ctx.problems):
         b = bad[0]
@@ -319,7 +324,7 @@ def run(ctx):
 def replay(rec):
     i = rec['input']
     if 'interp_method' in i:
-        f, _ = oracle_envelope(np.array(i['signal']), i['mode'], i['interp_method'], i['pad_width'], i['parabolic_extrema'])
+        f, _ = oracle_envelope(np.array(i['signal']), i['mode'], i['interp_method'], i['pad_width'], i['parabolic_extrema'], dtype=i.get('dtype'))
     else:
         f = oracle_extrema(i['signal'])
     for x in f:
